@@ -19,7 +19,8 @@ def convention_tables (repo, ctx=None):
   init = sw.methods.get('__init__')
   if init is None: raise AnalysisError("SoftwareSwitchBase.__init__ vanished")
   out = {}
-  for loop in [n for n in walk_no_nested(init.node) if isinstance(n, ast.For)]:
+  # (a table filled by a loop, or built in one go by a dict comprehension over the same name map)
+  for loop in [n for n in walk_no_nested(init.node) if isinstance(n, (ast.For, ast.DictComp))]:
     prefix = strip = None
     for c in calls_in(loop):
       if call_name(c) == 'getattr' and len(c.args) >= 2 and isinstance(c.args[1], ast.BinOp) and \
